@@ -1,0 +1,178 @@
+//go:build verif
+
+// Verification hooks: export unexported internals to the external verification
+// harness (/verif). Compiled only with `-tags verif`; adds no behaviour.
+
+package gohbase
+
+import (
+	"context"
+	"log/slog"
+	"net"
+	"time"
+
+	"github.com/tsuna/gohbase/compression"
+
+	"github.com/tsuna/gohbase/hrpc"
+	"github.com/tsuna/gohbase/zk"
+	"modernc.org/b/v2"
+
+	"github.com/tsuna/gohbase/region"
+)
+
+// VerifSearchKey exposes createRegionSearchKey.
+func VerifSearchKey(table, key []byte) []byte { return createRegionSearchKey(table, key) }
+
+// VerifAllRegionSearchKey exposes createAllRegionSearchKey.
+func VerifAllRegionSearchKey(table []byte) []byte { return createAllRegionSearchKey(table) }
+
+// VerifFullyQualifiedTable exposes fullyQualifiedTable.
+func VerifFullyQualifiedTable(reg hrpc.RegionInfo) []byte { return fullyQualifiedTable(reg) }
+
+// VerifIsRegionOverlap exposes isRegionOverlap.
+func VerifIsRegionOverlap(a, b hrpc.RegionInfo) bool { return isRegionOverlap(a, b) }
+
+// VerifProbeKey exposes probeKey.
+func VerifProbeKey(reg hrpc.RegionInfo) []byte { return probeKey(reg) }
+
+// VerifBackoffStart is backoffStart.
+const VerifBackoffStart = backoffStart
+
+// VerifMaxFindRegionTries is maxFindRegionTries.
+const VerifMaxFindRegionTries = maxFindRegionTries
+
+// VerifSleepAndIncreaseBackoff exposes sleepAndIncreaseBackoff.
+func VerifSleepAndIncreaseBackoff(ctx context.Context, d time.Duration) (time.Duration, error) {
+	return sleepAndIncreaseBackoff(ctx, d)
+}
+
+// VerifCache wraps a keyRegionCache (real B-tree, real region.Compare).
+type VerifCache struct{ krc keyRegionCache }
+
+// VerifNewCache creates an empty location cache.
+func VerifNewCache() *VerifCache {
+	return &VerifCache{krc: keyRegionCache{
+		logger:  slog.Default(),
+		regions: b.TreeNew[[]byte, hrpc.RegionInfo](region.Compare),
+	}}
+}
+
+func (c *VerifCache) Put(r hrpc.RegionInfo) ([]hrpc.RegionInfo, bool) { return c.krc.put(r) }
+func (c *VerifCache) Del(r hrpc.RegionInfo) bool                      { return c.krc.del(r) }
+func (c *VerifCache) Get(key []byte) ([]byte, hrpc.RegionInfo)        { return c.krc.get(key) }
+func (c *VerifCache) GetOverlaps(r hrpc.RegionInfo) []hrpc.RegionInfo {
+	c.krc.m.RLock()
+	defer c.krc.m.RUnlock()
+	return c.krc.getOverlaps(r)
+}
+
+// Dump returns the cached regions in tree order.
+func (c *VerifCache) Dump() []hrpc.RegionInfo {
+	var out []hrpc.RegionInfo
+	c.krc.m.RLock()
+	defer c.krc.m.RUnlock()
+	enum, err := c.krc.regions.SeekFirst()
+	if err != nil {
+		return nil
+	}
+	for {
+		_, v, err := enum.Next()
+		if err != nil {
+			break
+		}
+		out = append(out, v)
+	}
+	enum.Close()
+	return out
+}
+
+// VerifClient gives the harness access to a real *client.
+type VerifClient struct{ C *client }
+
+// VerifNewClient builds a real client with the given zk.Client and (optionally) a
+// region-client factory wrapper, without touching ZooKeeper.
+func VerifNewClient(zkc zk.Client, master bool,
+	wrap func(hrpc.RegionClient) hrpc.RegionClient, options ...Option) *VerifClient {
+	var c *client
+	if master {
+		c = newClient("verif-zk", options...)
+		c.clientType = region.MasterClient
+		c.adminRegionInfo = region.NewInfo(0, nil, nil, []byte("master"), nil, nil)
+	} else {
+		c = newClient("verif-zk", options...)
+	}
+	c.zkClient = zkc
+	if wrap != nil {
+		orig := c.newRegionClientFn
+		c.newRegionClientFn = func(addr string, ctype region.ClientType, qs int,
+			fi time.Duration, user string, rt time.Duration, codec compression.Codec,
+			dialer func(ctx context.Context, network, addr string) (net.Conn, error), logger *slog.Logger) hrpc.RegionClient {
+			return wrap(orig(addr, ctype, qs, fi, user, rt, codec, dialer, logger))
+		}
+	}
+	return &VerifClient{C: c}
+}
+
+// Client returns the public interface of the wrapped client.
+func (v *VerifClient) Client() Client { return v.C }
+
+// AsRPCClient returns the client as an RPCClient (for scanners).
+func (v *VerifClient) AsRPCClient() RPCClient { return v.C }
+
+// Cache returns the client's location cache.
+func (v *VerifClient) Cache() *VerifCacheRef { return &VerifCacheRef{&v.C.regions} }
+
+// GetRegionFromCache exposes (*client).getRegionFromCache.
+func (v *VerifClient) GetRegionFromCache(table, key []byte) hrpc.RegionInfo {
+	return v.C.getRegionFromCache(table, key)
+}
+
+// RegionsPut inserts into the client's location cache.
+func (v *VerifClient) RegionsPut(r hrpc.RegionInfo) ([]hrpc.RegionInfo, bool) {
+	return v.C.regions.put(r)
+}
+
+// RegionsDel removes from the client's location cache.
+func (v *VerifClient) RegionsDel(r hrpc.RegionInfo) bool { return v.C.regions.del(r) }
+
+// MetaRegionInfo returns the meta region info object.
+func (v *VerifClient) MetaRegionInfo() hrpc.RegionInfo { return v.C.metaRegionInfo }
+
+// ConnCacheAddrs returns the address of every connection in the connection cache.
+func (v *VerifClient) ConnCacheAddrs() []string {
+	v.C.clients.m.RLock()
+	defer v.C.clients.m.RUnlock()
+	var out []string
+	for rc := range v.C.clients.regions {
+		out = append(out, rc.Addr())
+	}
+	return out
+}
+
+// CachedRegions returns the location cache content in order.
+func (v *VerifClient) CachedRegions() []hrpc.RegionInfo {
+	var out []hrpc.RegionInfo
+	v.C.regions.m.RLock()
+	defer v.C.regions.m.RUnlock()
+	enum, err := v.C.regions.regions.SeekFirst()
+	if err != nil {
+		return nil
+	}
+	for {
+		_, r, err := enum.Next()
+		if err != nil {
+			break
+		}
+		out = append(out, r)
+	}
+	enum.Close()
+	return out
+}
+
+// VerifCacheRef refers to a client's own location cache.
+type VerifCacheRef struct{ krc *keyRegionCache }
+
+// VerifNewScanner exposes newScanner over an arbitrary RPCClient.
+func VerifNewScanner(c RPCClient, rpc *hrpc.Scan) hrpc.Scanner {
+	return newScanner(c, rpc, slog.Default())
+}
